@@ -21,7 +21,13 @@ IsOut(v) == v.tag = "out"
 Big(v)   == [v EXCEPT !.d = 0]
 IsUnit(v) == v.d = 0 /\ NormV(v).e = 0 /\ Abs(NormV(v).n) <= 1          \* the integers -1, 0, 1
 UnitOf(v) == NormV(v).n
-WithD(v, dd) == IF Abs(dd) <= 1 THEN [NormV(v) EXCEPT !.d = dd] ELSE OutV
+(* (a sum that n * 2^e can express itself is written that way: 1073741823 + 1 is 2^30, not "1073741823 and one more") *)
+WithD(v, dd) == IF Abs(dd) > 1 THEN OutV
+                ELSE LET w == NormV(v) IN
+                     IF dd = 0 THEN w
+                     ELSE IF w.n = 0 THEN Val(dd, 0)
+                     ELSE IF w.e >= 0 /\ BitLen(w.n) + w.e <= 30 THEN NormV(Val(w.n * Pow2(w.e) + dd, 0))
+                     ELSE [w EXCEPT !.d = dd]
 AddOff(x, y) ==
     IF IsUnit(y) THEN WithD(Big(x), x.d + UnitOf(y))
     ELSE IF IsUnit(x) THEN WithD(Big(y), y.d + UnitOf(x))
